@@ -384,7 +384,72 @@ def invalid_families():
     add('malformed-attributes', '<dtml-var x =>', '<dtml-var x a="b>c">',
         '<dtml-let x>a</dtml-let>', '<dtml-let x= y>a</dtml-let>',
         '<dtml-var x "y">', '<dtml-in s "t">a</dtml-in>')
+    # dtml-let takes bindings only (name=name or name="expression"):
+    # anything else, at any position among the bindings, is malformed
+    binds = ['a=b', 'c="d + 1"', 'e=a', 'g="\'x\'"']
+    junk = ['xy', '"a"', 'mapping', 'c"a"', 'q=', '=b',
+            'a =b', 'a= b']
+    for n in (2, 3, 4):
+        for pos in range(n):
+            for j in junk:
+                parts = binds[:n]
+                parts[pos] = j
+                add('malformed-let', '<dtml-let %s>a</dtml-let>'
+                    % ' '.join(parts))
+            parts = binds[:n]
+            parts[pos] = parts[pos].replace('=', '', 1)
+            add('malformed-let', '<dtml-let %s>a</dtml-let>'
+                % ' '.join(parts))
     return f
+
+
+def transplants():
+    """(attribute string, sources of tags that accept it, sources of tags
+    that do not): what one tag accepts says nothing about another tag."""
+    def blk(tag, a):
+        return '<dtml-%s %s>a</dtml-%s>' % (tag, a, tag)
+
+    def one(tag, a):
+        return '<dtml-%s %s>' % (tag, a)
+    B, O = blk, one
+    return [
+        ('s mapping', [B('in', 's mapping'), B('with', 's mapping')],
+         [O('var', 's mapping'), B('if', 's mapping'),
+          B('unless', 's mapping'), O('call', 's mapping'),
+          O('return', 's mapping')]),
+        ('s size=3 orphan=1', [B('in', 's size=3 orphan=1')],
+         [O('var', 's size=3 orphan=1'), B('if', 's size=3 orphan=1'),
+          B('with', 's size=3 orphan=1')]),
+        ('o only', [B('with', 'o only')],
+         [B('in', 'o only'), O('var', 'o only'), B('if', 'o only')]),
+        ('x html_quote', [O('var', 'x html_quote')],
+         [B('if', 'x html_quote'), B('in', 'x html_quote'),
+          B('with', 'x html_quote'), B('unless', 'x html_quote')]),
+        ('x upper', [O('var', 'x upper')],
+         [B('in', 'x upper'), B('if', 'x upper'), O('return', 'x upper')]),
+        ('s sort=a', [B('in', 's sort=a'), B('tree', 's sort=a')],
+         [O('var', 's sort=a'), B('if', 's sort=a'), B('with', 's sort=a')]),
+        ('s prefix=p', [B('in', 's prefix=p')],
+         [O('var', 's prefix=p'), B('with', 's prefix=p')]),
+        ('x fmt=a', [O('var', 'x fmt=a')],
+         [B('in', 'x fmt=a'), B('if', 'x fmt=a'), O('call', 'x fmt=a')]),
+        ('s reverse', [B('in', 's reverse'), B('tree', 's reverse')],
+         [O('var', 's reverse'), B('with', 's reverse'),
+          B('unless', 's reverse')]),
+        ('x missing=m', [O('var', 'x missing=m')],
+         [B('if', 'x missing=m'), B('in', 'x missing=m')]),
+        ('s skip_unauthorized', [B('in', 's skip_unauthorized'),
+                                 B('tree', 's skip_unauthorized')],
+         [O('var', 's skip_unauthorized'), B('with', 's skip_unauthorized')]),
+        ('s no_push_item', [B('in', 's no_push_item')],
+         [B('with', 's no_push_item'), O('var', 's no_push_item')]),
+        ('x size=3 etc=e', [O('var', 'x size=3 etc=e')],
+         [B('in', 'x size=3 etc=e'), B('if', 'x size=3 etc=e')]),
+        ('a=b', [B('let', 'a=b')],
+         [O('var', 'a=b'), B('if', 'a=b'), B('in', 'a=b')]),
+        ('x nowrap', [B('tree', 'x nowrap')],
+         [B('in', 'x nowrap'), O('var', 'x nowrap')]),
+    ]
 
 
 # bodies in which an invalid construct stays invalid: blocks without
@@ -637,6 +702,43 @@ def run_shard(shard):
                     acc.fail('valid-rejected', case, '%s source %r is valid '
                              'but was rejected: %s' % (sx, s2, d))
         run_invalid(True)
+        # an attribute string accepted by one tag, then given to a tag that
+        # does not accept it: later in the same source, and in a later
+        # compilation
+        for attrs, good, bad in transplants():
+            for sx in ('dtml', 'ssi', 'epfs'):
+                for g in good:
+                    g2 = translate(g, sx)
+                    v, d = check_source(g2, sx)
+                    case = dict(kind='valid-family', src=g2, syntax=sx)
+                    acc.case(case, False, klass='transplant-accepting',
+                             distinct_by_construction=True)
+                    if v != 'ok':
+                        acc.fail(v[1:] if v.startswith('!') else
+                                 'valid-rejected', case,
+                                 '%s source %r is valid but was rejected: '
+                                 '%s' % (sx, g2, d))
+                    for b in bad:
+                        for how in ('same-source', 'later-compilation'):
+                            b2 = translate(b, sx)
+                            src = g2 + ' ' + b2 if how == 'same-source' \
+                                else b2
+                            v, d = check_source(src, sx)
+                            case = dict(kind='family',
+                                        rule='unknown-attribute', src=src,
+                                        syntax=sx, prior=g2)
+                            acc.case(case, True, klass='transplant:' + how,
+                                     distinct_by_construction=True)
+                            if v.startswith('!'):
+                                acc.fail(v[1:] + ':transplant', case, d)
+                            elif v == 'ok':
+                                acc.fail(
+                                    'invalid-accepted:unknown-attribute:'
+                                    'after-a-tag-that-accepts-it', case,
+                                    '%s source %r gives the attributes %r '
+                                    'to a tag that does not accept them, but '
+                                    'compiled (%s after %r)' % (
+                                        sx, src, attrs, how, g2))
         return acc.result()
     if kind == 'nesting':
         # deep nesting / many attributes inside the documented domain
@@ -703,6 +805,9 @@ def replay(case):
             for src in valid_families():
                 for sx in ('dtml', 'ssi', 'epfs'):
                     check_source(translate(src, sx), sx)
+        if case.get('prior'):
+            suffix = ':after-a-tag-that-accepts-it'
+            check_source(case['prior'], case['syntax'])
         v, d = check_source(case['src'], case['syntax'])
         if v.startswith('!'):
             return v[1:] + suffix, d
